@@ -138,3 +138,20 @@ Theorem C10_activated_abort_refuted :
                                    c_restarted := false; c_inert := false |} ] [] 0) = COk st').
 Proof. exact activated_abort_refuted. Qed.
 Print Assumptions C10_activated_abort_refuted.
+
+(* ------------------------------------------------------------------------------------------ *)
+(* Snapshot discipline of the matching phase: `head_candidates` is a snapshot; as long as the flows
+   whose match statement raised are failed AFTER the loop, every candidate lookup succeeds ... *)
+Theorem C10_match_snapshot_safe : forall fuel raises cands st errs,
+  Forall (cand_valid st) cands ->
+  forall u h, match_phase false fuel cands raises st errs <> MLookupError u h.
+Proof. exact match_phase_deferred_safe. Qed.
+Print Assumptions C10_match_snapshot_safe.
+
+(* ... aborting inside the loop instead makes the lookup of a second head of the same flow (or-group
+   on the same event) fail - the KeyError that escapes run_to_completion (regression documentation) *)
+Theorem C10_match_immediate_abort_refuted :
+  exists st cands raises, Forall (cand_valid st) cands /\
+    match_phase true 10 cands raises st [] = MLookupError 1 1.
+Proof. exact match_phase_immediate_refuted. Qed.
+Print Assumptions C10_match_immediate_abort_refuted.
